@@ -557,4 +557,215 @@ example : standardZone (F64.fin false 121 (-1)) (F64.fin false 11 (-1)) (-1) = .
 example : -90 ≤ (F64.fin false 121 (-1)).val ∧ (F64.fin false 121 (-1)).val ≤ 90 := by
   rw [F64.val_fin]; norm_num
 
+
+/-! ### every constant and table extracted into `Gen.UTM` is pinned to its documented value -/
+
+/-- the MGRS tile constants of MGRS.hpp — "the source of the range tables" — have the documented values: 100 km tiles, UTM columns 1..9,
+    southern rows 10..100, northern rows 0..95, UPS indices 8..32 (south) and 13..27 (north), false eastings 5 (UTM) and 20 (UPS) tiles,
+    and the hemisphere shift `(maxutmSrow − minutmNrow)·tile = 10⁷` -/
+theorem mgrs_constants_documented :
+    mgrs_base = 10 ∧ mgrs_tilelevel = 5 ∧ mgrs_tile = 10 ^ 5 ∧ mgrs_minutmcol = 1 ∧ mgrs_maxutmcol = 9 ∧ mgrs_minutmSrow = 10 ∧
+    mgrs_maxutmSrow = 100 ∧ mgrs_minutmNrow = 0 ∧ mgrs_maxutmNrow = 95 ∧ mgrs_minupsSind = 8 ∧ mgrs_maxupsSind = 32 ∧
+    mgrs_minupsNind = 13 ∧ mgrs_maxupsNind = 27 ∧ mgrs_upseasting = 20 ∧ mgrs_utmeasting = 5 ∧
+    mgrs_utmNshift = (mgrs_maxutmSrow - mgrs_minutmNrow) * mgrs_tile ∧ mgrs_utmNshift = 10 ^ 7 ∧ zMAXPSEUDOZONE = -1 := by decide
+
+/-- the eight UTMUPS tables are the expressions of UTMUPS.cpp in those constants (index = 2·utm + north): false origins 20/20/5/5 tiles east,
+    20/20/100/0 tiles north; limits from the UPS indices, the UTM columns and the UTM rows *continued across the equator* -/
+theorem range_tables_from_constants :
+    utm_falseeasting = [mgrs_upseasting * mgrs_tile, mgrs_upseasting * mgrs_tile, mgrs_utmeasting * mgrs_tile, mgrs_utmeasting * mgrs_tile] ∧
+    utm_falsenorthing = [mgrs_upseasting * mgrs_tile, mgrs_upseasting * mgrs_tile, mgrs_maxutmSrow * mgrs_tile, mgrs_minutmNrow * mgrs_tile] ∧
+    utm_mineasting = [mgrs_minupsSind * mgrs_tile, mgrs_minupsNind * mgrs_tile, mgrs_minutmcol * mgrs_tile, mgrs_minutmcol * mgrs_tile] ∧
+    utm_maxeasting = [mgrs_maxupsSind * mgrs_tile, mgrs_maxupsNind * mgrs_tile, mgrs_maxutmcol * mgrs_tile, mgrs_maxutmcol * mgrs_tile] ∧
+    utm_minnorthing = [mgrs_minupsSind * mgrs_tile, mgrs_minupsNind * mgrs_tile, mgrs_minutmSrow * mgrs_tile,
+                       (mgrs_minutmNrow + mgrs_minutmSrow - mgrs_maxutmSrow) * mgrs_tile] ∧
+    utm_maxnorthing = [mgrs_maxupsSind * mgrs_tile, mgrs_maxupsNind * mgrs_tile,
+                       (mgrs_maxutmSrow + mgrs_maxutmNrow - mgrs_minutmNrow) * mgrs_tile, mgrs_maxutmNrow * mgrs_tile] := by decide
+
+/-- the range tables of the two classes agree: UTMUPS's limits (with `mgrslimits`) are MGRS's tile limits times the tile size, so that
+    "output of `UTMUPS::Forward(…, mgrslimits = true)` is legal input of `MGRS::Forward`" and vice versa -/
+theorem range_tables_agree :
+    utm_mineasting = mgrs_tbl_mineasting.map (· * mgrs_tile) ∧ utm_maxeasting = mgrs_tbl_maxeasting.map (· * mgrs_tile) ∧
+    utm_minnorthing = mgrs_tbl_minnorthing.map (· * mgrs_tile) ∧ utm_maxnorthing = mgrs_tbl_maxnorthing.map (· * mgrs_tile) := by decide
+
+/-- the continued ranges are the natural ones shifted by the hemisphere shift: a "northern" northing may go down to the southern minimum minus 10⁷,
+    a "southern" one up to the northern maximum plus 10⁷ -/
+theorem continued_ranges :
+    utm_minnorthing.getD 3 0 = utm_minnorthing.getD 2 0 - mgrs_utmNshift ∧ utm_maxnorthing.getD 2 0 = utm_maxnorthing.getD 3 0 + mgrs_utmNshift := by decide
+
+/-- `UTMUPS::UTMShift()` is exactly 10⁷ -/
+theorem utmShift_documented : utmShift = F64.ofInt 10000000 ∧ utmShift.val = 10000000 := by
+  refine ⟨rfl, ?_⟩
+  show (F64.ofInt mgrs_utmNshift).val = _
+  rw [val_ofInt]; rfl
+
+/-- `EquatorialRadius()` is 6378137 exactly and `Flattening()` is the binary64 value of `1/(298257223563/10⁹)`: within 2⁻²⁰·10⁻⁹ relative of
+    1/298.257223563 (evaluated exactly in dyadic arithmetic inside the kernel) -/
+theorem wgs84_documented :
+    wgs84a.val = 6378137 ∧
+    Dy.le (Dy.abs (Dy.sub (Dy.mul wgs84f.toDy ⟨298257223563, 0⟩) ⟨1000000000, 0⟩)) ⟨1, -20⟩ = true := by
+  refine ⟨?_, by decide +kernel⟩
+  show (F64.ofInt 6378137).val = _
+  rw [val_ofInt]; rfl
+
+/-! ### GeoCoords: hemisphere bookkeeping and the alternate zone -/
+
+/-- the label agrees with the latitude (the equator and NaN agree with both) — the test of `GeoCoords::FixHemisphere` -/
+def labelAgrees (lat : F64) (northp : Bool) : Bool :=
+  F64.eq lat 0 || (northp && F64.ge lat 0) || (!northp && F64.lt lat 0) || lat.isNaN
+
+/-- **`FixHemisphere`**: an agreeing label leaves the object alone; a contradicting one is flipped and the northing shifted by exactly
+    `UTMShift()` (+10⁷ from the northern label, −10⁷ from the southern) for UTM, and is an error for UPS; nothing else changes -/
+theorem fixHemisphere_spec (s : GeoState) :
+    fixHemisphere s =
+      if labelAgrees s.lat s.northp then .ok s
+      else if s.zone ≠ 0 then .ok { s with northing := s.northing + (if s.northp then utmShift else -utmShift), northp := !s.northp }
+      else .error "Hemisphere mixup" := by
+  unfold fixHemisphere labelAgrees
+  rfl
+
+/-- a non-NaN latitude is `≥ 0` or `< 0` -/
+theorem ge_or_lt_zero (x : F64) (h : x.isNaN = false) : F64.ge x 0 = true ∨ F64.lt x 0 = true := by
+  cases x with
+  | nan => simp [F64.isNaN] at h
+  | inf s => cases s <;> decide
+  | fin s m e =>
+    have z : (0 : F64) = F64.ofInt 0 := rfl
+    rw [z]
+    by_cases hv : (F64.fin s m e).val < 0
+    · right; rw [lt_ofInt_fin]; exact_mod_cast hv
+    · left; unfold F64.ge; rw [le_ofInt_left]; push_cast; exact not_lt.mp hv
+
+/-- after `FixHemisphere` the label agrees with the latitude, and fixing again changes nothing -/
+theorem fixHemisphere_agrees (s t : GeoState) (h : fixHemisphere s = .ok t) :
+    labelAgrees t.lat t.northp = true ∧ fixHemisphere t = .ok t := by
+  rw [fixHemisphere_spec] at h
+  have key : labelAgrees t.lat t.northp = true := by
+    by_cases ha : labelAgrees s.lat s.northp = true
+    · rw [if_pos ha] at h; cases h; exact ha
+    · rw [if_neg ha] at h
+      by_cases hz : s.zone ≠ 0
+      · rw [if_pos hz] at h
+        cases h
+        show labelAgrees s.lat (!s.northp) = true
+        unfold labelAgrees at ha ⊢
+        simp only [Bool.or_eq_true, Bool.and_eq_true, not_or] at ha
+        obtain ⟨⟨⟨h0, h1⟩, h2⟩, h3⟩ := ha
+        have hn : s.lat.isNaN = false := by simpa using h3
+        rcases ge_or_lt_zero s.lat hn with hg | hl
+        · cases hnp : s.northp
+          · simp [hg]
+          · exact absurd ⟨hnp, hg⟩ h1
+        · cases hnp : s.northp
+          · exact absurd ⟨by simp [hnp], hl⟩ h2
+          · simp [hl]
+      · rw [if_neg hz] at h; cases h
+  exact ⟨key, by rw [fixHemisphere_spec, if_pos key]⟩
+
+/-- the constructor from UTM/UPS coordinates keeps zone and easting, and keeps label and northing or flips/shifts them as `FixHemisphere` says;
+    the geographic coordinates, convergence and scale are those of `UTMUPS::Reverse` (kernel), whose exception propagates -/
+theorem resetUTM_spec (zone : Int) (northp : Bool) (x y lat lon g k : F64) :
+    resetUTM zone northp x y (.ok (lat, lon, g, k)) = fixHemisphere ⟨zone, northp, x, y, g, k, lat, lon⟩ ∧
+    ∀ e, resetUTM zone northp x y (.error e) = .error e := ⟨rfl, fun _ => rfl⟩
+
+/-- `SetAltZone(MATCH)` leaves the alternate coordinates alone -/
+theorem setAltZone_match (s : GeoState) (alt : AltState) (fwd : F64 → F64 → Int → Except Err FwdOut) :
+    setAltZone s alt zMATCH fwd = .ok alt := by
+  unfold setAltZone; simp
+
+/-- **`SetAltZone`** for a zone request other than MATCH, around an arbitrary `UTMUPS::Forward`: the request is resolved by `StandardZone`
+    at the object's (lat, lon) (its exception propagates); if that is the object's own zone the alternate coordinates are the coordinates;
+    otherwise they are what `Forward(lat, lon, setzone = that zone)` returns (its exception propagates) -/
+theorem setAltZone_spec (s : GeoState) (alt : AltState) (zone : Int) (hz : zone ≠ zMATCH) (fwd : F64 → F64 → Int → Except Err FwdOut) :
+    setAltZone s alt zone fwd =
+      match standardZone s.lat s.lon zone with
+      | .error e => .error e
+      | .ok z => if z = s.zone then .ok (copyToAlt s)
+                 else match fwd s.lat s.lon z with
+                      | .error e => .error e
+                      | .ok o => .ok ⟨o.zone, o.x, altNorthing o.zone s.northp o.northp o.y, o.gamma, o.k⟩ := by
+  unfold setAltZone
+  rw [if_neg hz]
+  cases hs : standardZone s.lat s.lon zone with
+  | error e => rfl
+  | ok z =>
+    simp only [bind, Except.bind]
+    by_cases h : z = s.zone
+    · simp only [h, if_true]; rfl
+    · simp only [h, if_false]
+      cases fwd s.lat s.lon z <;> rfl
+
+/-- **the alternate coordinates are those of `UTMUPS::Forward` at the same (lat, lon) with `setzone` = the alternate zone** — for every
+    `Forward` kernel under which the object's own coordinates are `Forward`'s for its own zone (`hmain`: true of an object built from
+    geographic coordinates; for one built from UTM/UPS coordinates it holds to the closure tolerance only, which is what the harness checks).
+    Zone, easting, convergence and scale are `Forward`'s; the northing is `Forward`'s re-expressed under the hemisphere label of the object
+    (`altNorthing`: shifted by ∓10⁷ when `Forward`'s label differs, which happens only on the equator; since fix 46b5aee). -/
+theorem setAltZone_is_forward (s : GeoState) (alt a : AltState) (zone : Int) (hz : zone ≠ zMATCH)
+    (fwd : F64 → F64 → Int → Except Err FwdOut)
+    (hmain : fwd s.lat s.lon s.zone = .ok ⟨s.zone, s.northp, s.easting, s.northing, s.gamma, s.k⟩)
+    (h : setAltZone s alt zone fwd = .ok a) :
+    ∃ z o, standardZone s.lat s.lon zone = .ok z ∧ fwd s.lat s.lon z = .ok o ∧
+      a = ⟨o.zone, o.x, altNorthing o.zone s.northp o.northp o.y, o.gamma, o.k⟩ := by
+  rw [setAltZone_spec s alt zone hz fwd] at h
+  cases hs : standardZone s.lat s.lon zone with
+  | error e => rw [hs] at h; cases h
+  | ok z =>
+    rw [hs] at h
+    simp only at h
+    by_cases hzz : z = s.zone
+    · rw [if_pos hzz] at h
+      cases h
+      refine ⟨z, _, rfl, by rw [hzz]; exact hmain, ?_⟩
+      simp [copyToAlt, altNorthing]
+    · rw [if_neg hzz] at h
+      cases hf : fwd s.lat s.lon z with
+      | error e => rw [hf] at h; cases h
+      | ok o => rw [hf] at h; cases h; exact ⟨z, o, rfl, hf, rfl⟩
+
+/-- the zone the alternate coordinates are expressed in is the one the request selects: the requested zone itself when it is 0..60, the standard
+    zone of the point for STANDARD, the UTM zone for UTM (never UPS) — combine with `standardZone_spec` / `standardZone_utm` / `standardZone_explicit` -/
+theorem setAltZone_zone (s : GeoState) (alt a : AltState) (zone z : Int) (hz : zone ≠ zMATCH)
+    (fwd : F64 → F64 → Int → Except Err FwdOut)
+    (hfz : ∀ lat lon zz o, fwd lat lon zz = .ok o → 0 ≤ zz → o.zone = zz)
+    (hs : standardZone s.lat s.lon zone = .ok z) (hz0 : 0 ≤ z)
+    (h : setAltZone s alt zone fwd = .ok a) : a.zone = z := by
+  rw [setAltZone_spec s alt zone hz fwd, hs] at h
+  simp only at h
+  by_cases hzz : z = s.zone
+  · rw [if_pos hzz] at h; cases h; exact hzz.symm
+  · rw [if_neg hzz] at h
+    cases hf : fwd s.lat s.lon z with
+    | error e => rw [hf] at h; cases h
+    | ok o => rw [hf] at h; cases h; exact hfz _ _ _ _ hf hz0
+
+/-- `Forward` with the standard-zone request and `Forward` with that zone requested explicitly are the same conversion: the request enters
+    `UTMUPS::Forward` only through `StandardZone` (same projection kernel) — the `hmain` hypothesis of `setAltZone_is_forward` for objects built
+    by `GeoCoords(lat, lon)` -/
+theorem forward_explicit_zone (lat lon : F64) (sz z : Int) (mg : Bool) (kern : F64 × F64 × F64 × F64)
+    (hs : standardZone lat lon sz = .ok z) (hz : 0 ≤ z ∧ z ≤ 60) :
+    forward lat lon sz mg kern = forward lat lon z mg kern := by
+  have he := standardZone_explicit lat lon z (Or.inl hz)
+  unfold forward
+  rw [hs, he]
+
+/-- the representation overloads with a hemisphere argument print the coordinates relabelled within the zone: unchanged for the object's own
+    label, northing ∓10⁷ for the other one, an error for UPS -/
+theorem relabel_spec (zone : Int) (np label : Bool) (x y : F64) :
+    relabel zone np x y label =
+      if zone = 0 ∧ np ≠ label then .error "UPS between hemispheres"
+      else .ok (x, if np ≠ label then y + nshift label else y) := by
+  unfold relabel transferSameZone nshift
+  simp only [mgrs_utmNshift]
+  by_cases h : zone = 0 ∧ np ≠ label
+  · rw [if_pos h, if_pos h]; rfl
+  · rw [if_neg h, if_neg h]
+    cases label <;> rfl
+
+/-- non-vacuity: the equator with the southern label agrees; latitude −1 with the northern label is flipped with northing + 10⁷;
+    SetAltZone(STANDARD) of an object in its standard zone copies the coordinates -/
+example : labelAgrees (F64.ofInt 0) false = true ∧
+    (match fixHemisphere ⟨31, true, F64.ofInt 500000, F64.ofInt (-110000), 0, 1, F64.ofInt (-1), F64.ofInt 3⟩ with
+     | .ok t => t.northp == false && F64.same t.northing (F64.ofInt 9890000) | .error _ => false) = true ∧
+    (match setAltZone ⟨31, true, F64.ofInt 500000, F64.ofInt 110000, 0, 1, F64.ofInt 1, F64.ofInt 3⟩ ⟨0, 0, 0, 0, 0⟩ (-1) (fun _ _ _ => .error "unused") with
+     | .ok a => a.zone == 31 && F64.same a.northing (F64.ofInt 110000) | .error _ => false) = true := by decide +kernel
+
 end GeoVerif.Props.C04
